@@ -70,7 +70,7 @@ func runStaged(args []string, out *os.File, cap int) (int, string) {
 	if options.DoInPlace {
 		return 0, "in-place"
 	}
-	const big = 1 << 30
+	const big = 1 << 15
 	reader, err := input.Create(&options.ReaderOptions, big)
 	if err != nil {
 		return stagedExitCode(err, false), ""
